@@ -280,3 +280,40 @@ impl Worker {
 pub fn ok(r: &Option<WorkerResponse>) -> bool {
     r.as_ref().map(|r| r.status == ResponseStatus::Ok as i32).unwrap_or(false)
 }
+
+// ---- HTTPS helpers ---------------------------------------------------------------------------
+
+pub const LOCAL_CERT: &str = include_str!("/repo/lib/assets/local-certificate.pem");
+pub const LOCAL_KEY: &str = include_str!("/repo/lib/assets/local-key.pem");
+
+impl Worker {
+    /// HTTPS listener (default ALPN h2 + http/1.1) with the repository's `localhost` certificate.
+    pub fn add_https_listener(&mut self, addr: SocketAddr, timeout: Duration) -> bool {
+        use sozu_command_lib::proto::command::{AddCertificate, CertificateAndKey};
+        let l = ListenerBuilder::new_https(addr.into()).to_tls(None).expect("https listener");
+        let a = self.request(RequestType::AddHttpsListener(l), timeout);
+        let b = self.request(
+            RequestType::ActivateListener(ActivateListener {
+                address: addr.into(),
+                proxy: ListenerType::Https.into(),
+                from_scm: false,
+            }),
+            timeout,
+        );
+        let c = self.request(
+            RequestType::AddCertificate(AddCertificate {
+                address: addr.into(),
+                certificate: CertificateAndKey {
+                    certificate: LOCAL_CERT.to_string(),
+                    key: LOCAL_KEY.to_string(),
+                    certificate_chain: vec![],
+                    versions: vec![],
+                    names: vec![],
+                },
+                expired_at: None,
+            }),
+            timeout,
+        );
+        ok(&a) && ok(&b) && ok(&c)
+    }
+}
